@@ -11,12 +11,16 @@ Import ListNotations.
 
 (* ------------------------------------------------------------------------------------------ vector
    [ref_step] is the operation on lists (push = snoc, pop = removelast/last, resize = firstn / padding with the
-   value, == = list equality, copy/move/assign/swap on the register file); [ref_ok] = the preconditions the
-   source does not check (pop/front/back of an empty vector, index within size) hold along the run. *)
-Theorem C13_vector_refines_list : forall esz ops, ref_ok rs0 ops ->
+   value, copy/move/assign/swap on the register file); [ref_ok] = the preconditions the source does not check
+   (pop/front/back of an empty vector, index within size) hold along the run.
+   [veq] is the element type's operator==, any function: it need not be reflexive (NaN), bitwise (+0.0/-0.0, a
+   struct compared by key) or symmetric.  r == s is [list_eqb veq (rs s) (rs r)]: equal lengths and
+   veq (s_i) (r_i) for every i (C13_vector_eq_is_list_equality) -- Leibniz equality of the lists exactly when
+   veq is Leibniz equality of elements. *)
+Theorem C13_vector_refines_list : forall esz veq ops, ref_ok veq rs0 ops ->
   exists st evs,
-    vrun esz vst0 ops = Ok (st, snd (ref_run rs0 ops), evs) /\
-    forall r, let l := fst (ref_run rs0 ops) r in
+    vrun esz veq vst0 ops = Ok (st, snd (ref_run veq rs0 ops), evs) /\
+    forall r, let l := fst (ref_run veq rs0 ops) r in
       size (regs st r) = length l /\
       (empty (regs st r) = true <-> l = []) /\
       iterate (regs st r) = map Some l /\
@@ -30,17 +34,32 @@ Definition ex_vops : list vop :=
   [VPush 0 1%N; VPushMove 0 2%N; VEmplace 0 3%N; VResize 0 7 9%N; VPop 0; VAssign 1 0; VEq 0 1; VResize 1 2 0%N;
    VEq 0 1; VMoveAssign 2 1; VSwap 0 2; VCopyCtor 1 2; VMoveCtor 2 0; VBack 1; VIndex 2 1; VClear 0; VFront 2].
 Example C13_vector_refines_list_ex :
-  ref_ok rs0 ex_vops /\
-  snd (ref_run rs0 ex_vops) = [OUnit; OUnit; OUnit; OUnit; OVal 9%N; OUnit; OBool true; OUnit; OBool false; OUnit; OUnit;
+  ref_ok N.eqb rs0 ex_vops /\
+  snd (ref_run N.eqb rs0 ex_vops) = [OUnit; OUnit; OUnit; OUnit; OVal 9%N; OUnit; OBool true; OUnit; OBool false; OUnit; OUnit;
                                OUnit; OUnit; OVal 9%N; OVal 2%N; OUnit; OVal 1%N] /\
-  fst (ref_run rs0 ex_vops) 1 = [1%N; 2%N; 3%N; 9%N; 9%N; 9%N].
+  fst (ref_run N.eqb rs0 ex_vops) 1 = [1%N; 2%N; 3%N; 9%N; 9%N; 9%N].
 Proof. vm_compute. repeat split; try discriminate; repeat constructor. Qed.
 
+Theorem C13_vector_eq_is_list_equality : forall veq a b,
+  (list_eqb veq a b = true <-> length a = length b /\ forall i, i < length a -> veq (nth i a 0%N) (nth i b 0%N) = true) /\
+  ((forall x y, veq x y = true <-> x = y) -> (list_eqb veq a b = true <-> a = b)).
+Proof. exact vector_eq_is_list_equality. Qed.
+Print Assumptions C13_vector_eq_is_list_equality.
+(* element equality of double on value codes (0 = +0.0, 1 = -0.0, 2 = NaN, as in comp/seq/harness.cpp): a vector
+   holding a NaN is not equal to its copy, [+0.0] equals [-0.0] *)
+Definition ex_dbl_eq (a b : N) : bool :=
+  negb (N.eqb a 2) && negb (N.eqb b 2) && (N.eqb a b || (N.leb a 1 && N.leb b 1)).
+Example C13_vector_eq_is_list_equality_ex :
+  snd (ref_run ex_dbl_eq rs0 [VPush 0 0%N; VPush 1 1%N; VEq 0 1; VPush 0 2%N; VAssign 1 0; VEq 0 1; VEq 0 0]) =
+    [OUnit; OUnit; OBool true; OUnit; OUnit; OBool false; OBool false] /\
+  list_eqb N.eqb [0%N] [1%N] = false.
+Proof. vm_compute. split; reflexivity. Qed.
+
 (* outside the preconditions the model reports UB (so nothing above holds by totalisation) *)
-Theorem C13_vector_pre_exact : forall esz st rs o, vrel st rs -> ~ ref_pre rs o -> vstep esz st o = UB.
+Theorem C13_vector_pre_exact : forall esz veq st rs o, vrel st rs -> ~ ref_pre rs o -> vstep esz veq st o = UB.
 Proof. exact vstep_pre_exact. Qed.
 Print Assumptions C13_vector_pre_exact.
-Example C13_vector_pre_exact_ex : vstep 8%N vst0 (VPop 0) = UB /\ vstep 8%N vst0 (VIndex 1 0) = UB.
+Example C13_vector_pre_exact_ex : vstep 8%N N.eqb vst0 (VPop 0) = UB /\ vstep 8%N N.eqb vst0 (VIndex 1 0) = UB.
 Proof. split; reflexivity. Qed.
 
 (* ------------------------------------------------------------------------------------ small_vector N
@@ -184,8 +203,8 @@ Theorem C13_owned_storage_only :
   (forall b i v, rd b i = Ok v -> i < length b /\ nth_error b i = Some (Some v)) /\
   (forall b i v b', construct b i v = Ok b' -> i < length b /\ nth_error b i = Some None) /\
   (forall b i b', destroy b i = Ok b' -> i < length b /\ exists v, nth_error b i = Some (Some v)) /\
-  (forall esz ops, ref_ok rs0 ops ->
-     exists st outs evs, vrun esz vst0 ops = Ok (st, outs, evs) /\
+  (forall esz veq ops, ref_ok veq rs0 ops ->
+     exists st outs evs, vrun esz veq vst0 ops = Ok (st, outs, evs) /\
        forall r, length (v_cells (regs st r)) = v_cap (regs st r) /\ v_size (regs st r) <= v_cap (regs st r)) /\
   (forall esz NI ops, sref_ok rs0 ops ->
      srun esz NI (sst0 NI) ops = AssertStop \/
@@ -194,14 +213,15 @@ Theorem C13_owned_storage_only :
                  length (s_inl (sregs st r)) = NI).
 Proof. exact owned_storage_only. Qed.
 Print Assumptions C13_owned_storage_only.
-(* the D08 replay (push x3; resize(7)) now runs without UB and with the events of 3, not 6, relocations *)
+(* the D08 replay (push x3; resize(7)) runs without UB and with the events of 3, not 6, relocations; register 0 is on
+   allocator instance 0, so its blocks are named 4, 8, 12 (= enc 0 1, enc 0 2, enc 0 3) *)
 Example C13_owned_storage_only_ex :
-  exists st, vrun 24%N vst0 [VPush 0 1%N; VPush 0 2%N; VPush 0 3%N; VResize 0 7 0%N] =
+  exists st, vrun 24%N N.eqb vst0 [VPush 0 1%N; VPush 0 2%N; VPush 0 3%N; VResize 0 7 0%N] =
     Ok (st, [OUnit; OUnit; OUnit; OUnit],
-        [EAlloc 1 48; EConstruct (1, 0); EConstruct (1, 1);
-         EAlloc 2 144; EUse (1, 0); EConstruct (2, 0); EUse (1, 1); EConstruct (2, 1); EDestroy (1, 0); EDestroy (1, 1); EFree 1;
-         EConstruct (2, 2);
-         EAlloc 3 336; EUse (2, 0); EConstruct (3, 0); EUse (2, 1); EConstruct (3, 1); EUse (2, 2); EConstruct (3, 2);
-         EDestroy (2, 0); EDestroy (2, 1); EDestroy (2, 2); EFree 2;
-         EConstruct (3, 3); EConstruct (3, 4); EConstruct (3, 5); EConstruct (3, 6)]).
+        [EAlloc 4 48; EConstruct (4, 0); EConstruct (4, 1);
+         EAlloc 8 144; EUse (4, 0); EConstruct (8, 0); EUse (4, 1); EConstruct (8, 1); EDestroy (4, 0); EDestroy (4, 1); EFree 4;
+         EConstruct (8, 2);
+         EAlloc 12 336; EUse (8, 0); EConstruct (12, 0); EUse (8, 1); EConstruct (12, 1); EUse (8, 2); EConstruct (12, 2);
+         EDestroy (8, 0); EDestroy (8, 1); EDestroy (8, 2); EFree 8;
+         EConstruct (12, 3); EConstruct (12, 4); EConstruct (12, 5); EConstruct (12, 6)]).
 Proof. eexists. vm_compute. reflexivity. Qed.
